@@ -214,6 +214,15 @@ MgmtFailed(props, cfg, S, e) ==
     \cup Chk(props, "C08", "C08.DumpFrame", Frame(cfg, S, e, i, {"archs"}) /\ noeval
                 /\ \A x \in 1..cfg.na : x # c => e.archs[x] = S.archs[x])
     \cup Chk(props, "C15", "C15.MgmtStats", StatsSame(S, e, i) /\ sizeok)
+  [] e.op = "sync" ->       \* f.__cache__().sync(clear): [archive.clear();] dump(); [load()]
+         LET both == Overlay(arch, mem) IN
+         Chk(props, "C08", "C08.Sync", e.exc = "none" /\ (IF ~arched THEN mem2 = mem
+                                                     ELSE IF e.clear THEN arch2 = mem /\ mem2 = mem
+                                                     ELSE arch2 = both /\ mem2 = both))
+    \cup Chk(props, "C08", "C08.SyncFrame", Frame(cfg, S, e, i, {"mem", "archs"}) /\ noeval
+                /\ \A x \in 1..cfg.na : x # c => e.archs[x] = S.archs[x])
+    \cup Chk(props, "C07", "C07.SyncKeepsResident", arched => \A kk \in Dom(mem) : arch2[kk] = mem[kk] /\ mem2[kk] = mem[kk])
+    \cup Chk(props, "C15", "C15.MgmtStats", StatsSame(S, e, i) /\ sizeok)
   [] e.op = "clear" ->
          Chk(props, "C15", "C15.ClearEmpties", e.exc = "none" /\ Size(mem2) = 0)
     \cup Chk(props, "C15", "C15.ClearStats", (IF e.keep THEN StatsSame(S, e, i)
@@ -309,6 +318,9 @@ GhostAfter(cfg, S, e) ==
         ELSE S.g
   ELSE IF e.op \in {"load", "loadk"} THEN
      [S.g EXCEPT ![i] = [g EXCEPT !.taint = g.taint \/ Dom(e.mem[i]) # Dom(S.mem[i])]]
+  ELSE IF e.op = "sync" THEN   \* sync(clear=True) empties the archive first: what was only there has been cleared explicitly
+     [S.g EXCEPT ![i] = [g EXCEPT !.taint = g.taint \/ Dom(e.mem[i]) # Dom(S.mem[i]),
+                                  !.kept = IF e.clear THEN g.kept \cap Dom(S.mem[i]) ELSE g.kept]]
   ELSE IF e.op = "clear" THEN
      [S.g EXCEPT ![i] = [g EXCEPT !.taint = Size(e.mem[i]) > 0,
                                   !.last = EmptyMap(cfg.nk), !.uses = EmptyMap(cfg.nk),
